@@ -551,11 +551,33 @@ impl Monitor for C11 {
 #[derive(Default)]
 pub struct C12 {
     pre_notional: Option<u128>,
+    /// the fee ratios each vAMM was GIVEN (instantiate message, then every accepted UpdateConfig that names them):
+    /// the expected fees are computed from these, not from what the vAMM reports about itself
+    own: Vec<(u128, u128)>,
 }
 
 impl Monitor for C12 {
     fn prop(&self) -> &'static str {
         "C12"
+    }
+    fn begin(&mut self, w: &World, s0: &Snap, r: &mut Report) {
+        self.own = w.cfg.vamms.iter().map(|v| (v.toll, v.spread)).collect();
+        for (i, (t, sp)) in self.own.iter().enumerate() {
+            if let Some(vs) = s0.vamms.get(i) {
+                if vs.toll != *t || vs.spread != *sp {
+                    r.violation(
+                        "C12",
+                        "R0-fee-ratios-not-as-configured",
+                        "R0|instantiate".to_string(),
+                        format!("vamm{} instantiated with toll {} spread {} reports toll {} spread {}", i, t, sp, vs.toll, vs.spread),
+                        0,
+                    );
+                }
+                if t != sp {
+                    r.count("deployments-with-toll-differing-from-spread");
+                }
+            }
+        }
     }
     fn pre(&mut self, w: &World, op: &Op, pre: &Snap, _r: &mut Report) {
         self.pre_notional = None;
@@ -566,6 +588,16 @@ impl Monitor for C12 {
         }
     }
     fn post(&mut self, w: &World, st: &Step, r: &mut Report) {
+        if let (true, Op::Vamm { vamm, msg: vm::ExecuteMsg::UpdateConfig { toll_ratio, spread_ratio, .. }, .. }) = (st.out.ok, &st.op) {
+            if let Some(o) = self.own.get_mut(*vamm) {
+                if let Some(t) = toll_ratio {
+                    o.0 = t.u128();
+                }
+                if let Some(sp) = spread_ratio {
+                    o.1 = sp.u128();
+                }
+            }
+        }
         let Some((sender, msg, _)) = engine_msg(&st.op) else { return };
         if !st.out.ok {
             return;
@@ -574,6 +606,16 @@ impl Monitor for C12 {
         let engine = w.engine.to_string();
         let ins = w.insurance.to_string();
         let pool = st.pre.eng.fee_pool.clone();
+        let own = self.own.clone();
+        // the vAMM as configured by its owner (fee ratios from the monitor's own record)
+        let as_configured = |vi: usize| -> VammSnap {
+            let mut v = st.pre.vamms[vi].clone();
+            if let Some((t, sp)) = own.get(vi) {
+                v.toll = *t;
+                v.spread = *sp;
+            }
+            v
+        };
         let native = w.cw20.is_none();
         let payer = if native { engine.clone() } else { sender.to_string() };
         let to_ins: Vec<u128> = st.out.transfers.iter().filter(|t| t.from == payer && t.to == ins).map(|t| t.amount).collect();
@@ -607,14 +649,14 @@ impl Monitor for C12 {
                 let Some(vi) = w.vamm_idx(vamm) else { return };
                 r.eval();
                 let n = Big::u(margin_amount.u128()).mul(Big::u(leverage.u128())).div(Big::u(d)).to_u128().unwrap_or(0);
-                check(r, "open", n, &st.pre.vamms[vi]);
+                check(r, "open", n, &as_configured(vi));
             }
             eng::ExecuteMsg::ClosePosition { vamm, .. } => {
                 let Some(vi) = w.vamm_idx(vamm) else { return };
                 if path == "close_position" {
                     r.eval();
                     if let Some(n) = self.pre_notional {
-                        check(r, "close", n, &st.pre.vamms[vi]);
+                        check(r, "close", n, &as_configured(vi));
                     }
                 } else if path.starts_with("partial_close_position") {
                     // a partial close is a quote-denominated trade: the engine asks the vAMM to swap a quote
@@ -623,7 +665,7 @@ impl Monitor for C12 {
                     r.eval();
                     let (a, b) = (&st.pre.vamms[vi], &st.post.vamms[vi]);
                     let traded = if a.q > b.q { a.q - b.q } else { b.q - a.q };
-                    check(r, "partial-close", traded, &st.pre.vamms[vi]);
+                    check(r, "partial-close", traded, &as_configured(vi));
                 } else {
                     r.count("fees:close-path-not-pinned");
                 }
